@@ -107,7 +107,9 @@ impl Kinematics for OPWKinematics {
                     let s_n;
                     if let Some(Singularity::A) = singularity {
                         let mut now = ik[s_idx];
-                        if are_angles_close(now[J5], 0.) {
+                        let q5 = now[J5] * self.parameters.sign_corrections[J5] as f64
+                            - self.parameters.offsets[J5];
+                        if are_angles_close(q5, 0.) {
                             // J5 = 0 singlularity, J4 and J6 rotate same direction
                             s = previous[J4] + previous[J6];
                             s_n = now[J4] + now[J6];
@@ -303,7 +305,11 @@ impl Kinematics for OPWKinematics {
     }
 
     fn kinematic_singularity(&self, joints: &Joints) -> Option<Singularity> {
-        if is_close_to_multiple_of_pi(joints[J5], SINGULARITY_ANGLE_THR) {
+        // The wrist is singular when the axes of J4 and J6 are collinear, that is when the
+        // geometric J5 angle (after the sign correction and offset) is a multiple of PI.
+        let p = &self.parameters;
+        let q5 = joints[J5] * p.sign_corrections[J5] as f64 - p.offsets[J5];
+        if is_close_to_multiple_of_pi(q5, SINGULARITY_ANGLE_THR) {
             Some(Singularity::A)
         } else {
             None
@@ -784,7 +790,8 @@ fn is_close_to_multiple_of_pi(joint_value: f64, threshold: f64) -> bool {
     let normalized_angle = joint_value.rem_euclid(2.0 * PI);
     // Check if the normalized angle is close to 0 or PI
     normalized_angle < threshold ||
-        (PI - normalized_angle).abs() < threshold
+        (PI - normalized_angle).abs() < threshold ||
+        (2.0 * PI - normalized_angle) < threshold
 }
 
 fn are_angles_close(angle1: f64, angle2: f64) -> bool {
